@@ -214,12 +214,41 @@ pub fn gen_f64(rng: &mut Rng) -> f64 {
 pub const INITIAL_SPECIAL: &[u8] = b"!$%&*/:<=>?^_~";
 pub const UNI_ALPHA: &[char] = &['λ', 'é', 'ß', 'я', '中', '𝒳', 'Ω', 'ñ', 'ｱ', 'א'];
 
+/// All non-ASCII alphabetic scalar values, bucketed by the std-visible
+/// properties a hand-written character test could branch on (numeric letters
+/// such as Roman numerals, case, UTF-8 length, plane), so that a rare class is
+/// drawn as often as a populous one.
+pub fn alpha_buckets() -> &'static Vec<Vec<char>> {
+    static B: std::sync::OnceLock<Vec<Vec<char>>> = std::sync::OnceLock::new();
+    B.get_or_init(|| {
+        let mut m: std::collections::BTreeMap<(bool, bool, bool, usize, u32), Vec<char>> = std::collections::BTreeMap::new();
+        for n in 128..0x110000u32 {
+            if let Some(c) = char::from_u32(n) {
+                if c.is_alphabetic() {
+                    m.entry((c.is_numeric(), c.is_uppercase(), c.is_lowercase(), c.len_utf8(), n >> 16)).or_default().push(c);
+                }
+            }
+        }
+        m.into_values().collect()
+    })
+}
+
+pub fn gen_uni_alpha(rng: &mut Rng) -> char {
+    if rng.bool() {
+        *rng.pick(UNI_ALPHA)
+    } else {
+        let b = alpha_buckets();
+        let i = rng.below(b.len());
+        *rng.pick(&b[i])
+    }
+}
+
 fn gen_initial(rng: &mut Rng) -> char {
     match rng.below(10) {
         0..=4 => (b'a' + rng.below(26) as u8) as char,
         5 => (b'A' + rng.below(26) as u8) as char,
         6..=7 => *rng.pick(INITIAL_SPECIAL) as char,
-        _ => *rng.pick(UNI_ALPHA),
+        _ => gen_uni_alpha(rng),
     }
 }
 
